@@ -91,6 +91,40 @@ def run(ctx):
                 ctx.disagree("from_cirq:sector-set", f"sectors {sorted(back.sectors())} expected {sorted(secs_exp)}", desc)
         except Exception as exc:
             ctx.disagree(f"from_cirq-raises:{type(exc).__name__}", f"from_cirq raised {exc}", desc)
+        # (c2) the in-place import `fqe.transform.from_cirq(target, vec)` into a wavefunction that already holds
+        # amplitudes: afterwards the target is the projection of the vector on its sectors — its own export again
+        # for vec = to_cirq(psi), and for a sparser vector the dropped determinants must read zero (nothing stale,
+        # nothing accumulated)
+        try:
+            import copy as _copy
+            from fqe.transform import from_cirq as from_cirq_inplace
+            exp = {(a, b): c for a, b, c in entries}
+            tgt = _copy.deepcopy(w)
+            from_cirq_inplace(tgt, v)
+            got = {k: z for k, z in U.wfn_dict(tgt).items() if z != 0}
+            ctx.case(("inplace-self", wk, norb, case) if nontriv else None)
+            ctx.count("import:inplace-self")
+            if got != exp:
+                ctx.disagree("from_cirq:inplace-prefilled", "transform.from_cirq(psi, to_cirq(psi)) != psi", desc)
+            if len(entries) >= 2:
+                drop = set(rng.sample(sorted(exp), max(1, len(exp) // 2)))
+                v2 = v.copy()
+                for i, z in want.items():
+                    a, b = decode_index(norb, i)
+                    if (a, b) in drop:
+                        v2[i] = 0
+                tgt = _copy.deepcopy(w)
+                from_cirq_inplace(tgt, v2)
+                got = {k: z for k, z in U.wfn_dict(tgt).items() if z != 0}
+                exp2 = {k: z for k, z in exp.items() if k not in drop}
+                ctx.case(("inplace-sparse", wk, norb, case))
+                ctx.count("import:inplace-sparse")
+                if got != exp2:
+                    ctx.disagree("from_cirq:inplace-prefilled",
+                                 f"transform.from_cirq into a pre-filled wavefunction: {len(set(got.items()) ^ set(exp2.items()))} "
+                                 "determinants differ from the projection of the vector", dict(desc, dropped=sorted(drop)))
+        except Exception as exc:
+            ctx.disagree(f"from_cirq-inplace-raises:{type(exc).__name__}", f"transform.from_cirq raised {exc}", desc)
         # (b) intertwining with an operator
         if wk == "numberbroken":
             continue
